@@ -74,7 +74,11 @@ type accAnnotations struct {
 		// Scoped: the token is held only at the sites inside ConfinedTo; sites of the field elsewhere are
 		// allowed but get no token — they have to be protected by real locks against the token-holding sites
 		Scoped bool
-		Why    string
+		// Guard: the token stands for the closed-flag barrier on this mutex (guarded accesses under Guard while
+		// !closed; the closing goroutine's access after its exclusive critical section of Guard that sets closed):
+		// emitted as Gen.barrierTokens, the ordering claim is then derived from lock events (BarrierProtocol)
+		Guard string
+		Why   string
 	} `json:"tokens"`
 	CtorFuncs []struct {
 		Func    string
@@ -1967,14 +1971,21 @@ func (x *accExtractor) emit(root string) error {
 		}
 	}
 	sort.Ints(exempt)
-	var tokenIDs []string
+	var tokenIDs, plainIDs, barrierIDs []string
 	seenTok := map[string]bool{}
 	for _, t := range x.ann.Tokens {
 		if !seenTok[t.Token] {
 			seenTok[t.Token] = true
 			tokenIDs = append(tokenIDs, fmt.Sprint(em.lockID(t.Token)))
+			if t.Guard != "" {
+				barrierIDs = append(barrierIDs, fmt.Sprintf("(%d, %d)", em.lockID(t.Token), em.lockID(t.Guard)))
+			} else {
+				plainIDs = append(plainIDs, fmt.Sprint(em.lockID(t.Token)))
+			}
 		}
 	}
+	fmt.Fprintf(&sk, "/-- tokens whose ordering claim is an assumption (ownership hand-offs, sync.Once) -/\ndef plainTokenIds : List Mutex := [%s]\n\n", strings.Join(plainIDs, ", "))
+	fmt.Fprintf(&sk, "/-- closed-flag barrier tokens with their guard mutex: (token, guard) -/\ndef barrierTokens : List (Mutex × Mutex) := [%s]\n\n", strings.Join(barrierIDs, ", "))
 	fmt.Fprintf(&sk, "/-- ordering-protocol tokens: not locks, not subject to the lockset analysis -/\ndef tokenIds : List Mutex := [%s]\n\n", strings.Join(tokenIDs, ", "))
 	var exs []string
 	for _, e := range exempt {
